@@ -58,6 +58,11 @@ type c20H struct {
 	fault  func(k int, pid int, kind, what string) bool    // inject an error at the k-th one?
 	jitter bool
 	afterCA func(pid int, path, answer string)
+	afterStore   func(pid int, class string) // scripted scenarios: called after a logged Store, outside the mutex
+	afterPre     func(p *c20Proc)            // … after PreCheck
+	beforeLock   func(pid int)               // … when the registration lock is requested
+	lockNames    map[string]bool             // names under which the registration lock was requested
+	badContact   []string
 	email  string
 	procs  []*c20Proc
 	ctx    context.Context
@@ -79,7 +84,8 @@ func newC20H(t *testing.T, ctx context.Context, ca *vCA, email string) *c20H {
 	srv.Validation = vACMEPreValid
 	// a scenario that hangs (a leaked lock) ends with errors instead of stalling the run
 	sctx, cancel := context.WithTimeout(ctx, 45*time.Second)
-	return &c20H{t: t, srv: srv, mem: vNewMem(), ids: map[string]int{}, urls: map[string]int{}, email: email, ctx: sctx, cancel: cancel}
+	return &c20H{t: t, srv: srv, mem: vNewMem(), ids: map[string]int{}, urls: map[string]int{}, email: email, ctx: sctx, cancel: cancel,
+		lockNames: map[string]bool{}}
 }
 
 func (h *c20H) tok(format string, a ...any) { h.toks = append(h.toks, fmt.Sprintf(format, a...)) } // mu held
@@ -158,6 +164,11 @@ func (p *c20Proc) Store(ctx context.Context, key string, value []byte) error {
 		return p.h.mem.Store(ctx, key, value)
 	}
 	p.pause()
+	defer func() {
+		if f := p.h.afterStore; f != nil {
+			f(p.pid, class)
+		}
+	}()
 	p.h.mu.Lock()
 	defer p.h.mu.Unlock()
 	id := p.h.idOfContent(class, value)
@@ -227,7 +238,11 @@ func (p *c20Proc) Lock(ctx context.Context, name string) error {
 		return p.h.mem.Lock(ctx, name)
 	}
 	p.pause()
+	if f := p.h.beforeLock; f != nil {
+		f(p.pid)
+	}
 	p.h.mu.Lock()
+	p.h.lockNames[name] = true
 	if p.injected("Lock", "lock") {
 		p.h.tok("L:%d:e", p.pid)
 		p.h.mu.Unlock()
@@ -357,6 +372,16 @@ func (p *c20Proc) issue(name string) (err error) {
 	if err != nil {
 		return err
 	}
+	// the contact decides the lock name and the files: it must be the configured e-mail, and with
+	// none configured (no scenario stores an account that has a contact) it must stay empty
+	if got, want := p.iss.getEmail(), strings.TrimSpace(strings.ToLower(p.h.email)); got != want {
+		p.h.mu.Lock()
+		p.h.badContact = append(p.h.badContact, fmt.Sprintf("process %d: configured %q, uses %q", p.pid, want, got))
+		p.h.mu.Unlock()
+	}
+	if f := p.h.afterPre; f != nil {
+		f(p)
+	}
 	csr, err := p.cfg.generateCSR(c20KeyPool, []string{name}, false)
 	if err != nil {
 		return err
@@ -429,6 +454,20 @@ func (h *c20H) monitors(o *vOut, scenario string, faultFree, forgetFree bool) {
 		if len(accts) > 1 {
 			o.Mon("C20 orders-with-different-accounts", map[string]any{"scenario": scenario, "accounts": len(accts), "seed": vSeed()})
 		}
+	}
+	h.mu.Lock()
+	var names []string
+	for n := range h.lockNames {
+		names = append(names, n)
+	}
+	sort.Strings(names)
+	bad := append([]string(nil), h.badContact...)
+	h.mu.Unlock()
+	if len(bad) > 0 {
+		o.Mon("C20 contact-invented-from-incomplete-account", map[string]any{"scenario": scenario, "cases": bad, "seed": vSeed()})
+	}
+	if len(names) > 1 {
+		o.Mon("C20 two-lock-names-for-one-account", map[string]any{"scenario": scenario, "locks": names, "seed": vSeed()})
 	}
 	o.Stat("ca_newaccount_requests", len(regs))
 	o.Stat("ca_orders", len(h.srv.Orders()))
@@ -514,6 +553,44 @@ func TestVerifC20(t *testing.T) {
 		h.close()
 	}
 
+	// scripted: an instance starts while another one's first registration is half-written
+	// (registration stored, key not yet) — with and without a configured e-mail. Its e-mail
+	// discovery must not invent a contact from the incomplete account (a different contact
+	// means a different lock name over the same two files).
+	for _, email := range []string{"", emails[0]} {
+		c20Reset()
+		h := newC20H(t, ctx, ca, email)
+		a, b := h.proc(), h.proc()
+		held, release := make(chan struct{}), make(chan struct{})
+		var once, once2 sync.Once
+		h.afterStore = func(pid int, class string) {
+			if pid == a.pid && class == "reg" {
+				once.Do(func() { close(held); <-release })
+			}
+		}
+		// the first instance goes on as soon as the second one asks for the registration lock
+		h.beforeLock = func(pid int) {
+			if pid == b.pid {
+				once2.Do(func() { close(release) })
+			}
+		}
+		done := make(chan error, 1)
+		go func() { done <- a.issue("half-a.c20.example") }()
+		select {
+		case <-held:
+		case err := <-done:
+			t.Fatalf("half-written scenario: first issuance ended early: %v", err)
+		}
+		errB := b.issue("half-b.c20.example")
+		once2.Do(func() { close(release) })
+		errA := <-done
+		if errA != nil || errB != nil {
+			o.Mon("C20 issuance-failed-fault-free", map[string]any{"scenario": "half-written rival", "errors": fmt.Sprint(errA, errB), "seed": vSeed()})
+		}
+		h.monitors(o, "half-written-rival", true, true)
+		h.emit(o, "half_written_rival")
+		h.close()
+	}
 	phase("concurrent_first")
 	// ---- S3: a storage fault at each step of the first construction, alone and with a rival; then recovery
 	maxK := 14
